@@ -25,7 +25,7 @@ META = {
         "kept, the ACK flag agrees with the ack list; ProxiedCircuit.drop_message - raises exactly when finalized, "
         "acks a reliable packet towards its sender exactly once and forwards its non-injected piggy-backed acks in one "
         "separate PacketAck in the original direction, and nothing else; Message.take typestate; Circuit.prepare_message "
-        "issues strictly increasing IDs; track_reliable. B (bounded, labelled): exactly-once delivery of acks across "
+        "issues strictly increasing IDs; track_reliable. ProxiedCircuit._rewrite_packet_ack (explicit PacketAck): per acknowledged ID, withheld iff it acknowledges a proxy-injected packet, otherwise forwarded in its own block as the endpoint's own ID (InjectionTracker.get_original_id, C04), never raising; an emptied PacketAck is reported to the caller. B (bounded, labelled): exactly-once delivery of acks across "
         "both directions, PacketAck block rewriting, resend cadence/budget with a virtual clock - explored as "
         "histories against ghost monitors, see bounded_tier."),
     "trusted_base": [
@@ -218,6 +218,8 @@ def register(reg):
     L("ownership_take", "take preserves the ownership typestate", cls="Message", vars={"result": "Obj:Message"},
       post_of="hippolyzer.lib.base.message.message:Message.take",
       hyps=["old(own_ok(self))", "self.dropped == old(self.dropped)"], goal="own_ok(self) or (self.queued and self.finalized and not self.dropped)")
+    from contracts import c05b_contracts
+    c05b_contracts.register_p2(reg, PID)
 
 
 BOUNDED = [nat.bounded_circuit_histories]
